@@ -72,10 +72,10 @@ Fixpoint plain_attrs (t : ty) : bool :=
 Definition natural_struct_align (ms : list member) : Z :=
   fold_right (fun m acc => Z.max (align_of (mty m)) acc) 1 ms.
 
-(* no @align raises the alignment of this structure above the natural one *)
+(* no @align changes the alignment of this structure: AlignOf(S) (which takes the
+   @align values into account) equals the natural one *)
 Definition no_align_raise (ms : list member) : bool :=
-  forallb (fun m => match mal m with None => true
-                    | Some a => aval a <=? natural_struct_align ms end) ms.
+  struct_align (infos_of ms) =? natural_struct_align ms.
 
 (* ... for every structure in the tree, the root included *)
 Fixpoint align_inert (t : ty) : bool :=
